@@ -140,3 +140,40 @@ func VerifC16_Windowed() {
 	verifNotify("windowed", w, verifRegister(w), func() { w.OnSample(s1, r1, i1, d1) })
 	verif.Assert("windowed-reports-delegate", w.EstimatedLimit() == d.EstimatedLimit())
 }
+
+// VerifC16_Wrappers_DelegateChangedDirectly: a consumer registered THROUGH the windowed / traced
+// wrapper hears about every change of the delegate's estimate, also those that do not pass through
+// the wrapper: an explicit SetLimit on a settable delegate, or a sample fed to a shared (AIMD)
+// delegate directly.  The wrapper keeps reporting exactly the delegate's estimate.
+//
+//verif:harness property=C16 theory=real tier=quick
+func VerifC16_Wrappers_DelegateChangedDirectly() {
+	limit := verif.Int("limit")
+	newLimit := verif.Int("newLimit")
+	verif.Assume(limit >= 1 && newLimit >= 1 && limit < 1<<31 && newLimit < 1<<31)
+	wrapper := verif.Choice("wrapper", 2)
+	direct := verif.Choice("change", 2)
+	var delegate core.Limit
+	var op func()
+	if direct == 0 {
+		s := NewSettableLimit("s", limit, nil)
+		delegate = s
+		op = func() { s.SetLimit(newLimit) }
+	} else {
+		a := NewAIMDLimit("a", limit, 0.5, 2, nil)
+		delegate = a
+		i1, d1 := verif.Int("inflight1"), verif.Bool("drop1")
+		verif.Assume(i1 >= 0 && i1 < 1<<31)
+		op = func() { a.OnSample(0, 1000, i1, d1) }
+	}
+	var l core.Limit
+	if wrapper == 0 {
+		w, err := NewWindowedLimit("w", 100000000, 1000000000, 10, 0, delegate, nil)
+		verif.Assert("wrapper-constructed", err == nil)
+		l = w
+	} else {
+		l = NewTracedLimit(delegate, NoopLimitLogger{})
+	}
+	verifNotify("wrapped-delegate", l, verifRegister(l), op)
+	verif.Assert("wrapper-reports-delegate", l.EstimatedLimit() == delegate.EstimatedLimit())
+}
